@@ -39,3 +39,17 @@ Print Assumptions C16_too_few.
 Print Assumptions C16_arg_failure.
 Print Assumptions C16_call.
 Print Assumptions C16_unwrap_return.
+
+(* ---- the known finding c16-return-inside-loop, as a theorem about the faithful model ----
+   fn() { for (x) in [1,2,3] { if (x == 2) { return x } } return 9 }  called once:
+   the return reached inside the loop does not end the function; the call yields 9, not 2 *)
+From Coq Require Import String.
+From Plush Require Import model.Lexer model.Parser model.Cases.
+Local Open Scope string_scope.
+Theorem C16_return_inside_loop_refuted :
+  match run_case [] (mkrcase (hx "3c25206c65742066203d20666e2829207b20666f722028782920696e205b312c322c335d207b206966202878203d3d203229207b2072657475726e2078207d207d2072657475726e2039207d20253e3c253d2066282920253e") [] [] (ObsOk []) []) with
+  | OOk out _ => out = hx "39"
+  | _ => False
+  end.
+Proof. vm_compute. reflexivity. Qed.
+Print Assumptions C16_return_inside_loop_refuted.
